@@ -13,6 +13,7 @@ import (
 	"encoding/json"
 	"flag"
 	"fmt"
+	"hash/fnv"
 	"math/rand"
 	"os"
 	"sort"
@@ -67,11 +68,12 @@ type call struct {
 }
 
 // shapes: the argument list after the principal argument, and the nesting, per function tag
-//   timeformat x fmt z | timeattr x b z | buckettime x b fmt z | time x fmt z | duration x | durationformat x
-//   rt       = {time {timeformat x fmt z} fmt z}
-//   bucketrt = {buckettime {timeformat x fmt z} b fmt z}
-//   durrt    = {duration {durationformat x}}
-//   fmtdur   = {durationformat {duration x}}
+//
+//	timeformat x fmt z | timeattr x b z | buckettime x b fmt z | time x fmt z | duration x | durationformat x
+//	rt       = {time {timeformat x fmt z} fmt z}
+//	bucketrt = {buckettime {timeformat x fmt z} b fmt z}
+//	durrt    = {duration {durationformat x}}
+//	fmtdur   = {durationformat {duration x}}
 func template(c call) (string, error) {
 	x := "{0}"
 	if c.P == "c" {
@@ -155,6 +157,7 @@ func evalCall(c call, opt bool) (o outcome) {
 
 type vcall struct {
 	call
+	K  string `json:"k"`  // "val": E is demanded; "any": outside the specified domain
 	E  []int  `json:"e"`  // expected result (TLC)
 	Ce string `json:"ce"` // "y": a compile error is expected, "n" / "": none
 }
@@ -204,10 +207,10 @@ func c18Replay(argv []string) error {
 		Expect   string `json:"expect"`
 		Call     call   `json:"call"`
 	}
-	var mism []mismatch
+	mism := []mismatch{}
 	perSig := map[string]int{}
 	perF := map[string]int{}
-	lines, runs := 0, 0
+	lines, runs, anys := 0, 0, 0
 	distinct := map[string]bool{}
 	var samples []M
 	err := vh.ReadNd(*in, func(raw json.RawMessage) error {
@@ -216,7 +219,11 @@ func c18Replay(argv []string) error {
 			return err
 		}
 		lines++
-		for i, vc := range l.Calls {
+		for _, vc := range l.Calls {
+			if vc.K != "val" {
+				anys++
+				continue
+			}
 			c := vc.call
 			if c.X == nil {
 				c.X = l.X
@@ -232,8 +239,15 @@ func c18Replay(argv []string) error {
 			}
 			want := string(vh.FromInts(vc.E))
 			perF[c.F]++
+			key := c.F + "\x00" + c.Fmt + "\x00" + c.B + "\x00" + c.Z + "\x00" + string(vh.FromInts(c.X))
+			hk := fnv.New32a()
+			hk.Write([]byte(key))
+			h := hk.Sum32() // the selection below must not depend on the order TLC printed the lines in
+			if h%5 == 0 {
+				c.P = "c" // the principal argument as a template constant
+			}
 			for _, opt := range []bool{true, false} {
-				if !opt && (lines+i)%4 != 0 { // the unoptimised compiler on a quarter of the calls
+				if !opt && h%4 != 1 { // the unoptimised compiler on a quarter of the calls
 					continue
 				}
 				o := evalCall(c, opt)
@@ -248,8 +262,8 @@ func c18Replay(argv []string) error {
 					mism = append(mism, mismatch{sig, l.G, o.Template, string(vh.FromInts(c.X)), opt, o.Got, o.Cerr, o.Panic, want, c})
 				}
 			}
-			distinct[c.F+"\x00"+c.Fmt+"\x00"+c.B+"\x00"+c.Z+"\x00"+string(vh.FromInts(c.X))] = true
-			if len(samples) < 4 && (lines%97 == 1) && i%11 == 3 {
+			distinct[key] = true
+			if h%4999 == 7 {
 				t, _ := template(c)
 				samples = append(samples, M{"template": t, "input": string(vh.FromInts(c.X)), "expected_by_TLC": want})
 			}
@@ -259,7 +273,19 @@ func c18Replay(argv []string) error {
 	if err != nil {
 		return err
 	}
-	vh.WriteJSON(*out, M{"lines": lines, "runs": runs, "per_func": perF, "distinct": len(distinct),
+	sort.Slice(samples, func(i, j int) bool {
+		return samples[i]["template"].(string)+samples[i]["input"].(string) < samples[j]["template"].(string)+samples[j]["input"].(string)
+	})
+	if len(samples) > 4 {
+		samples = samples[:4]
+	}
+	sort.Slice(mism, func(i, j int) bool {
+		if mism[i].Sig != mism[j].Sig {
+			return mism[i].Sig < mism[j].Sig
+		}
+		return mism[i].Template+mism[i].Input < mism[j].Template+mism[j].Input
+	})
+	vh.WriteJSON(*out, M{"lines": lines, "runs": runs, "outside_domain": anys, "per_func": perF, "distinct": len(distinct),
 		"mismatches": mism, "mismatch_counts": perSig, "samples": samples})
 	return nil
 }
@@ -272,9 +298,9 @@ var allFormats = []string{"ANSIC", "UNIX", "RUBY", "RFC822", "RFC822Z", "RFC1123
 	"MONTH", "MONTHNAME", "MNTH", "DAY", "YEAR", "HOUR", "MINUTE", "SECOND", "TIMEZONE", "NTIMEZONE", "NTZ", "WEEKDAY", "WDAY"}
 var zones = []string{"UTC", "utc", "Etc/GMT+5", "Etc/GMT-3", "Etc/GMT-14", "Etc/GMT+12", "Asia/Kolkata", "America/New_York",
 	"Europe/Berlin", "Australia/Sydney"}
-var attrs = []string{"weekday", "week", "yearweek", "quarter", "QUARTER", "Week"}
+var attrs = []string{"weekday", "week", "yearweek", "quarter"}
 var buckets = []string{"n", "nano", "nanos", "s", "second", "seconds", "m", "minute", "minutes", "h", "hour", "hours",
-	"d", "day", "days", "mo", "month", "months", "y", "year", "years", "Hours", "MONTH"}
+	"d", "day", "days", "mo", "month", "months", "y", "year", "years"}
 
 const maxUnix = 4133980799 // 2100-12-31T23:59:59Z
 
@@ -403,7 +429,7 @@ func randSecs(rng *rand.Rand) int64 {
 	case 0:
 		v = int64(rng.Intn(7300))
 	case 1:
-		v = int64(rng.Intn(200)) * 3600 + int64(rng.Intn(3))*60*int64(rng.Intn(2))
+		v = int64(rng.Intn(200))*3600 + int64(rng.Intn(3))*60*int64(rng.Intn(2))
 	case 2:
 		v = int64(rng.Intn(1000000000))
 	default:
@@ -442,13 +468,8 @@ func c18Eval(argv []string) error {
 	b := fs.String("b", "", "bucket / attribute")
 	noopt := fs.Bool("noopt", false, "compile without optimisation")
 	fs.Parse(argv)
-	var keys []string
-	for _, x := range fs.Args() {
-		keys = append(keys, x)
-	}
-	sort.Strings(keys[:0])
 	enc := json.NewEncoder(os.Stdout)
-	for _, x := range keys {
+	for _, x := range fs.Args() {
 		o := evalCall(call{F: *f, P: *p, N: *n, X: vh.BS(x), Fmt: *ft, Z: *z, B: *b}, !*noopt)
 		enc.Encode(M{"template": o.Template, "got": o.Got, "cerr": o.Cerr, "panic": o.Panic})
 	}
